@@ -168,8 +168,9 @@ void dom_p08(void) {
                 sl += (size_t) sprintf(stream + sl, "%s %u%s%u%s", ncmd[h_below(8)], h_below(100000), h_chance(40) ? "." : "", h_below(100000), h_chance(50) ? "\n" : "\r\n");
             sl += (size_t) sprintf(stream + sl, "%s %s%u", ncmd[h_below(8)], h_chance(20) ? "-" : "", h_below(1000));      /* unterminated */
         }
-        /* streams never leave more pending than the buffer holds: buffer is larger than the stream */
-        k = (size_t) sprintf(line, "P8 %d 16 %s", (int) sl + 2 + (int) h_below(40), table);
+        /* streams never leave more pending than the buffer holds: the buffer holds the whole stream and the NUL behind it,
+         * in a quarter of the cases with not a byte to spare (exact fit when the stream arrives in one call) */
+        k = (size_t) sprintf(line, "P8 %d 16 %s", (int) sl + 1 + (h_chance(25) ? 0 : 1 + (int) h_below(40)), table);
         { unsigned mode = h_below(4);
           off = 0;
           if (mode == 0) { line[k++] = ' '; k += chunk_hex(line + k, stream, sl); }                       /* all at once */
